@@ -4,6 +4,7 @@ import (
 	"fmt"
 	"go/types"
 	"runtime/debug"
+	"strings"
 
 	"golang.org/x/tools/go/ssa"
 
@@ -20,7 +21,7 @@ func (fx *FnExec) SymValue(st *State, t types.Type, name string, depth int) Valu
 		}
 		if u.Info()&types.IsString != 0 {
 			l := cx.Fresh(name+".len", BV(64))
-			if n, ok := fx.PinLen[name]; ok {
+			if n, ok := fx.PinLen[strings.ReplaceAll(name, "*", "")]; ok {
 				l = BV64(n)
 			}
 			st.Assume(ULt(l, BV64(1<<40)))
@@ -65,7 +66,7 @@ func (fx *FnExec) SymValue(st *State, t types.Type, name string, depth int) Valu
 			nl := cx.Fresh(name+".nil", Bool)
 			ln := cx.Fresh(name+".len", BV(64))
 			cp := cx.Fresh(name+".cap", BV(64))
-			if n, ok := fx.PinLen[name]; ok {
+			if n, ok := fx.PinLen[strings.ReplaceAll(name, "*", "")]; ok {
 				ln = BV64(n)
 				if n > 0 {
 					nl = False
